@@ -9,9 +9,10 @@
 (*             the netcode layer reports connected (sn), the server events *)
 (*             emitted by this update, in order                            *)
 (* The relay's decision (pass / drop) is read from the recorded relay      *)
-(* event.  The model has no time-outs: the comparison of a run stops at    *)
-(* its heal marker (the good rounds that follow run past the time-out of   *)
-(* half-open sessions).  A mismatch is DRIFT, not a verdict.               *)
+(* event.  The good rounds after the heal marker (every datagram passes,   *)
+(* same step length) are followed as well: this is where half-open         *)
+(* sessions run into the model's time-outs.  A mismatch is DRIFT, not a    *)
+(* verdict.                                                                *)
 (***************************************************************************)
 EXTENDS MC_Transport, IOUtils
 
@@ -19,7 +20,7 @@ TraceLog == ndJsonDeserialize(IOEnv.TRACE)
 
 VARIABLES l, rl, skip, cnt
 svars == <<vars, l, rl, skip, cnt>>
-mvars == <<sn, sr, cn, cr, up, down, evq, seen, asked, ctl, hist>>
+mvars == <<sn, sr, cn, cr, up, down, evq, seen, asked, cq, sq, tout, ctl, hist>>
 
 SInit == /\ Init /\ l = 1 /\ rl = [k \in Ids \X {"up", "down"} |-> FALSE] /\ skip = FALSE
          /\ cnt = [runs |-> 0, matched |-> 0, drift |-> 0, accepted |-> 0]
@@ -41,11 +42,11 @@ SNext ==
        IF e.ev = "reset"
        THEN /\ sn' = [i \in Ids |-> "none"] /\ sr' = [i \in Ids |-> "absent"] /\ cn' = [i \in Ids |-> "req"] /\ cr' = [i \in Ids |-> "connecting"]
             /\ up' = [i \in Ids |-> {}] /\ down' = [i \in Ids |-> {}] /\ evq' = <<>> /\ seen' = [i \in Ids |-> FALSE] /\ asked' = {}
+            /\ cq' = [i \in Ids |-> 0] /\ sq' = [i \in Ids |-> 0] /\ tout' = {}
             /\ ctl' = [steps |-> 0, ndisc |-> 0, bad |-> FALSE] /\ hist' = <<>>
             /\ rl' = [k \in Ids \X {"up", "down"} |-> FALSE] /\ skip' = FALSE
             /\ cnt' = [cnt EXCEPT !.runs = @ + 1, !.accepted = IF ~skip /\ cnt.runs > 0 THEN @ + 1 ELSE @]
        ELSE IF skip THEN UNCHANGED <<mvars, rl, skip, cnt>>
-       ELSE IF e.ev = "heal" THEN /\ skip' = TRUE /\ cnt' = [cnt EXCEPT !.accepted = @ + 1, !.runs = @] /\ UNCHANGED <<mvars, rl>>
        ELSE IF e.ev = "relay" /\ e.c \in Ids
        THEN /\ rl' = [rl EXCEPT ![<<e.c, e.dir>>] = ("drop" \notin RangeOf(e.ops))] /\ UNCHANGED <<mvars, skip, cnt>>
        ELSE IF e.ev = "cstep" /\ e.c \in Ids
@@ -54,7 +55,7 @@ SNext ==
             /\ IF Status(cr'[e.c]) = e.cs.status THEN Match ELSE Drift(e, <<"status", cr'[e.c], e.cs.status>>)
        ELSE IF e.ev = "sstep"
        THEN LET pass == [i \in Ids |-> rl[<<i, "up">>]]
-                s == ServerAll(Ids, pass, [sn |-> sn, sr |-> sr, evq |-> <<>>, down |-> down])
+                s == ServerAll(Ids, pass, [sn |-> sn, sr |-> sr, evq |-> <<>>, down |-> down, sq |-> sq, tout |-> tout])
                 ids == SortedI({i \in Ids : s.sr[i] = "conn"})
                 nids == SortedI({i \in Ids : s.sn[i] = "conn"})
                 bad == {f \in {"ids", "nids", "evs"} :
@@ -62,12 +63,12 @@ SNext ==
                             \/ (f = "nids" /\ nids # e.view.nids)
                             \* the order of events of DIFFERENT ids follows a hash map in the code: compared per id
                             \/ (f = "evs" /\ \E i \in Ids : SelectSeq(EvView(s.evq), LAMBDA x : x.id = i) # SelectSeq(EvView(e.view.evs), LAMBDA x : x.id = i))}
-            IN /\ sn' = s.sn /\ sr' = s.sr /\ down' = s.down /\ up' = [i \in Ids |-> {}]
+            IN /\ sn' = s.sn /\ sr' = s.sr /\ down' = s.down /\ up' = [i \in Ids |-> {}] /\ sq' = s.sq /\ tout' = s.tout
                /\ evq' = <<>>                                   \* the harness drains the server events with every step
                /\ seen' = [i \in Ids |-> IF \E j \in 1..Len(s.evq) : s.evq[j].id = i
                                          THEN s.evq[CHOOSE j \in 1..Len(s.evq) : s.evq[j].id = i /\ \A k \in (j + 1)..Len(s.evq) : s.evq[k].id # i].type = "Connected"
                                          ELSE seen[i]]
-               /\ UNCHANGED <<cn, cr, asked, ctl, hist, rl>>
+               /\ UNCHANGED <<cn, cr, asked, cq, ctl, hist, rl>>
                /\ IF bad = {} THEN Match ELSE Drift(e, <<bad, ids, nids, EvView(s.evq)>>)
        ELSE IF e.ev = "disc" /\ e.c \in Ids
        THEN IF ENABLED Disc(e.c, e.who)
